@@ -5,7 +5,10 @@ cases
   {"t": "recvfam", "stream": hex, "lim": n}         the whole stream, every 2-split, 3-splits of the first n bytes, byte by byte
   {"t": "send", "items": [[khex, vhex], ...]}       AmpBox(dict(items)).serialize()
   {"t": "sendstr", "key": str|None, "val": str|None} a box with a str (non-bytes) key or value
-  {"t": "arg", "ty": T, "val": V}                   T = "int" | "str" | "bool" | ["list", T]; V = int | hex | bool | [V...]
+  {"t": "arg", "ty": T, "val": V}                   T = "int" | "str" | "bool" | "dec" | "date" | "uni" | ["list", T]
+                                                    V = int | hex | bool | ["fin", neg, coefficient, exponent] | ["inf", neg] |
+                                                    ["nan", neg, signalling, payload] | [y, mo, d, h, mi, s, us, offset minutes] |
+                                                    [code points] | [V...]
   {"t": "argx", "ty": name, "val": ...}             Float / Decimal / DateTime / Unicode / Path / AmpList: round trip on the
                                                     implementation only (not modelled)
   argx types: float, decimal, listdecimal, listfloat, unicode, path, datetime, amplist (Integer + String + ListOf(Decimal))
@@ -79,12 +82,34 @@ def _arg(ty):
         return amp.String()
     if ty == "bool":
         return amp.Boolean()
+    if ty == "dec":
+        return amp.Decimal()
+    if ty == "date":
+        return amp.DateTime()
+    if ty == "uni":
+        return amp.Unicode()
     return amp.ListOf(_arg(ty[1]))
+
+
+def _digits(n):
+    return tuple(int(ch) for ch in str(n))
 
 
 def _val(ty, v):
     if ty == "str":
         return bytes.fromhex(v)
+    if ty == "dec":
+        if v[0] == "fin":
+            return decimal.Decimal((1 if v[1] else 0, _digits(v[2]), v[3]))
+        if v[0] == "inf":
+            return decimal.Decimal((1 if v[1] else 0, (0,), "F"))
+        return decimal.Decimal((1 if v[1] else 0, _digits(v[3]) if v[3] else (), "N" if v[2] else "n"))
+    if ty == "date":
+        from twisted.protocols import amp
+        tz = amp._FixedOffsetTZInfo.fromSignHoursMinutes("-" if v[7] < 0 else "+", abs(v[7]) // 60, abs(v[7]) % 60)
+        return datetime.datetime(*v[:7], tzinfo=tz)
+    if ty == "uni":
+        return "".join(chr(c) for c in v)
     if isinstance(ty, list):
         return [_val(ty[1], x) for x in v]
     return v
@@ -97,6 +122,21 @@ def _show(ty, v):
         return "s" + bytes(v).hex()
     if ty == "bool":
         return "bT" if v is True else "bF" if v is False else "b?"
+    if ty == "dec":
+        s, ds, e = v.as_tuple()
+        sg = "-" if s else ""
+        n = int("".join(map(str, ds))) if ds else 0
+        if e == "F":
+            return "d" + sg + "Inf"
+        if e in ("n", "N"):
+            return "d" + sg + ("sNaN" if e == "N" else "NaN") + str(n)
+        return "d" + sg + str(n) + "e" + str(e)
+    if ty == "date":
+        o = v.utcoffset()
+        return "t" + ",".join(str(x) for x in (v.year, v.month, v.day, v.hour, v.minute, v.second, v.microsecond)) + "," + str(
+            (o.days * 86400 + o.seconds) // 60)
+    if ty == "uni":
+        return "u" + ".".join(str(ord(ch)) for ch in v)
     return "[" + ",".join(_show(ty[1], x) for x in v) + "]"
 
 
@@ -104,7 +144,7 @@ def arg_impl(ty, v):
     a = _arg(ty)
     try:
         e = a.toString(_val(ty, v))
-    except struct.error:
+    except (struct.error, UnicodeEncodeError):
         return "ERR"
     return "E:" + e.hex() + " D:" + _show(ty, a.fromString(e))
 
@@ -285,6 +325,8 @@ def oracle(case, obs):
 
         if too_long(ty, v):
             return None if obs == "ERR" else Failure(case, "list element longer than 65535 bytes not refused", "arg-overlong-element")
+        if _has_surrogate(ty, v):
+            return None if obs == "ERR" else Failure(case, "a lone surrogate was encoded", "arg-surrogate-encoded")
         want = "E:" + _enc_ref(ty, v) + " D:" + _show(ty, _val(ty, v))
         if obs != want:
             return Failure(case, f"expected {want[:160]}, got {obs[:160]}", "arg-roundtrip-" + (ty if isinstance(ty, str) else "list"))
@@ -299,6 +341,43 @@ def oracle(case, obs):
     return None
 
 
+def _dec_ref(v) -> str:
+    """to-scientific-string of the General Decimal Arithmetic specification (speleotrove.com/decimal/daconvs.html)"""
+    sg = "-" if v[1] else ""
+    if v[0] == "inf":
+        return sg + "Infinity"
+    if v[0] == "nan":
+        return sg + ("sNaN" if v[2] else "NaN") + (str(v[3]) if v[3] else "")
+    coef, exp = str(v[2]), v[3]
+    adjusted = exp + len(coef) - 1
+    if exp <= 0 and adjusted >= -6:
+        if exp == 0:
+            return sg + coef
+        if len(coef) > -exp:
+            return sg + coef[:exp] + "." + coef[exp:]
+        return sg + "0." + "0" * (-exp - len(coef)) + coef
+    body = coef[0] + ("." + coef[1:] if len(coef) > 1 else "")
+    return sg + body + "E" + ("+" if adjusted >= 0 else "-") + str(abs(adjusted))
+
+
+def _utf8_ref(c: int) -> bytes:
+    if c < 0x80:
+        return bytes([c])
+    if c < 0x800:
+        return bytes([0xC0 | c >> 6, 0x80 | c & 0x3F])
+    if c < 0x10000:
+        return bytes([0xE0 | c >> 12, 0x80 | c >> 6 & 0x3F, 0x80 | c & 0x3F])
+    return bytes([0xF0 | c >> 18, 0x80 | c >> 12 & 0x3F, 0x80 | c >> 6 & 0x3F, 0x80 | c & 0x3F])
+
+
+def _has_surrogate(ty, v):
+    if ty == "uni":
+        return any(0xD800 <= c <= 0xDFFF for c in v)
+    if isinstance(ty, list):
+        return any(_has_surrogate(ty[1], x) for x in v)
+    return False
+
+
 def _enc_ref(ty, v) -> str:
     if ty == "int":
         return str(v).encode().hex()
@@ -306,6 +385,14 @@ def _enc_ref(ty, v) -> str:
         return v
     if ty == "bool":
         return (b"True" if v else b"False").hex()
+    if ty == "dec":
+        return _dec_ref(v).encode().hex()
+    if ty == "date":
+        y, mo, d, h, mi, s, us, off = v
+        return ("%04d-%02d-%02dT%02d:%02d:%02d.%06d%s%02d:%02d" % (y, mo, d, h, mi, s, us, "+" if off > 0 else "-", abs(off) // 60,
+                                                                    abs(off) % 60)).encode().hex()
+    if ty == "uni":
+        return b"".join(_utf8_ref(c) for c in v).hex()
     out = b""
     for x in v:
         e = bytes.fromhex(_enc_ref(ty[1], x))
@@ -356,6 +443,27 @@ def rand_val(rng, ty, depth=0):
         return bytes(rng.randrange(256) for _ in range(rng.choice([0, 1, 2, 10, 10, 255, 256, 300]))).hex()
     if ty == "bool":
         return rng.random() < 0.5
+    if ty == "dec":
+        s, ds, e = decimal.Decimal(rand_decimal(rng)).as_tuple()
+        n = int("".join(map(str, ds))) if ds else 0
+        if e == "F":
+            return ["inf", bool(s)]
+        if e in ("n", "N"):
+            return ["nan", bool(s), e == "N", n]
+        return ["fin", bool(s), n, e]
+    if ty == "date":
+        v = rand_argx(rng, "datetime")
+        o = v[7]
+        return v[:7] + [0 if o is None else (-1 if o[0] == "-" else 1) * (o[1] * 60 + o[2])]
+    if ty == "uni":
+        cp = lambda: rng.choice([0, 0x41, 0x7F, 0x80, 0x7FF, 0x800, 0xFFFF, 0x10000, 0x10FFFF, 0xD7FF, 0xE000, 0xFFFD, 0x1F600,
+                                 rng.randrange(0x110000)])
+        s = [cp() for _ in range(rng.choice([0, 1, 2, 5]))]
+        if rng.random() < 0.85:
+            s = [c for c in s if not 0xD800 <= c <= 0xDFFF]
+        elif rng.random() < 0.5:
+            s.append(rng.choice([0xD800, 0xDBFF, 0xDC00, 0xDFFF]))
+        return s
     return [rand_val(rng, ty[1], depth + 1) for _ in range(rng.choice([0, 1, 2, 4]))]
 
 
@@ -394,8 +502,9 @@ def gen(rng, tier):
             cases.append({"t": "send", "items": [[k.hex(), v.hex()] for k, v in items]})
     cases += [{"t": "sendstr", "key": None, "val": "text"}, {"t": "sendstr", "key": None, "val": ""}]
     # argument types
-    tys = ["int", "str", "bool", ["list", "int"], ["list", "str"], ["list", "bool"], ["list", ["list", "int"]], ["list", ["list", ["list", "str"]]]]
-    for _ in range(3 * n):
+    tys = ["int", "str", "bool", ["list", "int"], ["list", "str"], ["list", "bool"], ["list", ["list", "int"]], ["list", ["list", ["list", "str"]]],
+           "dec", "dec", "dec", "date", "uni", ["list", "dec"], ["list", "uni"], ["list", "date"], ["list", ["list", "dec"]]]
+    for _ in range(6 * n):
         ty = rng.choice(tys)
         cases.append({"t": "arg", "ty": ty, "val": rand_val(rng, ty)})
     for _ in range(3 * n):
@@ -512,7 +621,8 @@ def corpus():
 
 
 def _coq_ty(ty):
-    return {"int": "TInt", "str": "TStr", "bool": "TBool"}[ty] if isinstance(ty, str) else f"(TList {_coq_ty(ty[1])})"
+    return ({"int": "TInt", "str": "TStr", "bool": "TBool", "dec": "TDec", "date": "TDate", "uni": "TUni"}[ty] if isinstance(ty, str)
+            else f"(TList {_coq_ty(ty[1])})")
 
 
 def _coq_val(ty, v):
@@ -522,6 +632,17 @@ def _coq_val(ty, v):
         return f"(VStr {coq_bytes(bytes.fromhex(v))})"
     if ty == "bool":
         return f"(VBool {'true' if v else 'false'})"
+    if ty == "dec":
+        b = lambda x: "true" if x else "false"
+        if v[0] == "fin":
+            return f"(VDec (DFin {b(v[1])} {v[2]}%N ({v[3]})%Z))"
+        if v[0] == "inf":
+            return f"(VDec (DInf {b(v[1])}))"
+        return f"(VDec (DNaN {b(v[1])} {b(v[2])} {v[3]}%N))"
+    if ty == "date":
+        return "(VDate (mkdt " + " ".join(f"{x}%N" for x in v[:7]) + f" ({v[7]})%Z))"
+    if ty == "uni":
+        return "(VUni " + coq_list([f"{c}%N" for c in v], "N") + ")"
     return "(VList " + coq_list([_coq_val(ty[1], x) for x in v], "val") + ")"
 
 
@@ -562,7 +683,7 @@ def shrink(case):
 SPEC = Spec(
     pid="C30",
     gen=gen, impl=impl, oracle=oracle, corpus=corpus, shrink=shrink,
-    coq_header="From TwLib Require Import PyBytes Seg.\nFrom C30 Require Import Model Run.",
+    coq_header="From TwLib Require Import PyBytes Seg.\nFrom C30 Require Import Text Model Run.",
     coq_fn="run_case",
     to_coq=to_coq,
     nontrivial=lambda c, o: o not in (" |open", "ERR") or c["t"] in ("send", "sendstr"),
